@@ -25,7 +25,8 @@ RULE = (
     "mutations (delete/duplicate/swap/replace-by-pool-token, 1-3 per input) of generated valid schemas; (4) grammar-aware "
     "out-of-domain literals (float/huge/negative ids, string/float/identifier enum values, empty enum, unknown parameter, "
     "wrong parameter arity, integer-literal range, non-string unit, negative/float/zero array size, import of a missing or "
-    "garbage module, wrong version); (5) thorough: atheris coverage-guided campaign. Oracle: (a) the call returns; (b) no "
+    "garbage module, wrong version); (4b) valid schemas with unusual separators (CR, VT, FF, FS..RS, NEL, U+2028/9, NUL, BOM, "
+    "NBSP) inside comments and strings, whole or cut anywhere, also inside a comment; (5) thorough: atheris coverage-guided campaign. Oracle: (a) the call returns; (b) no "
     "exception escapes get_fcp_from_string/get_fcp and the value is Ok(FcpV2) or Err(FcpError); (c) Logger.error(err) "
     "returns a str; (d) every [<name>.fcp:<line>] citation names a registered source and 1 <= line <= its line count. "
     "Failures are bucketed by (exception type, innermost fcp frame) / oracle clause and the shortest input per bucket is "
@@ -41,6 +42,7 @@ FLOORS = {
     "out_of_domain": 0.10,
     "mutation": 0.10,
     "noise": 0.02,
+    "exotic_separator": 0.05,
     "result_err": 0.30,
     "result_ok": 0.02,
 }
@@ -87,10 +89,13 @@ def judge(kind: str, res: Any, logger: Any) -> Optional[Tuple[str, str]]:
     if not isinstance(diag, str):
         return "render-not-str", f"(c) Logger.error returned {type(diag).__name__}"
     for name, line in CITE.findall(diag):
-        src = logger.sources.get(name)
-        if src is None:
+        # files in different directories may share a name: the citation is good when one of the registered
+        # sources of that name has the line
+        cands = [logger.sources[name]] if name in logger.sources else []
+        cands += [src for pth, src in getattr(logger, "sources_by_path", {}).items() if os.path.basename(pth) == name]
+        if not cands:
             return "cite-unknown-source", f"(d) diagnostic cites [{name}:{line}] but no such source is registered"
-        nlines = len(src.split("\n"))
+        nlines = max(len(src.split("\n")) for src in cands)
         if not (1 <= int(line) <= nlines):
             return "cite-bad-line", f"(d) diagnostic cites [{name}:{line}] but the source has {nlines} lines"
     return None
@@ -190,8 +195,10 @@ def tweaked(draw) -> Tuple[Dict[str, str], List[str]]:
         elif tw == "mod_missing":
             d.decls.insert(k % (len(d.decls) + 1), M.Mod(["nosuchmod"]))
         elif tw in ("mod_garbage", "mod_eof", "mod_dir") and not files:
-            d.decls.insert(k % (len(d.decls) + 1), M.Mod(["sub", "b"] if k % 2 else ["b"]))
-            rel = "sub/b.fcp" if k % 2 else "b.fcp"
+            # also a module called like the importing root file, in another directory
+            mpath = [["b"], ["sub", "b"], ["sub", "main"]][k % 3]
+            d.decls.insert(k % (len(d.decls) + 1), M.Mod(mpath))
+            rel = "/".join(mpath) + ".fcp"
             if tw == "mod_garbage":
                 files[rel] = ['version: "3"\nstruct $', "\x00\x01", 'version: "3"\nenum E { }', 'version: "2"',
                               'version: "3"\nstruct S { a @0: Nope, }', ""][k % 6]
@@ -225,6 +232,34 @@ def mutated(draw) -> Tuple[str, List[str]]:
             toks.insert(i, draw(st.sampled_from(TOKEN_POOL)))
         ops.append(op)
     return " ".join(toks), ops
+
+
+EXOTIC = ["\r", "\x0b", "\x0c", "\x1c", "\x1d", "\x1e", "\x85", "\u2028", "\u2029", "\r\n", "\x00", "\ufeff", "\u00a0"]
+
+
+@st.composite
+def exotic(draw) -> Tuple[str, str]:
+    """Valid schema with unusual line/space separators hidden in comments and strings, optionally cut (EOF)."""
+    d = draw(S.full_schema(small_cfg()))
+    groups = printer.tokens(d)
+    flat = [t for g in groups for t in g]
+    out = []
+    for t in flat:
+        k = draw(st.integers(0, 11))
+        if k == 0:
+            out.append("/*" + draw(st.sampled_from(EXOTIC)) * draw(st.integers(1, 2)) + "*/")
+        elif k == 1:
+            out.append("//" + draw(st.sampled_from(EXOTIC)) * draw(st.integers(1, 3)) + "\n")
+        if t.startswith('"') and len(t) > 2 and draw(st.booleans()):
+            t = t[:-1] + draw(st.sampled_from(EXOTIC)) + '"'
+        out.append(t)
+    text = " ".join(out)
+    mode = draw(st.sampled_from(["full", "cut", "cut", "cut_in_comment"]))
+    if mode == "cut":
+        text = text[: draw(st.integers(0, len(text)))]
+    elif mode == "cut_in_comment":
+        text = text[: draw(st.integers(0, len(text)))] + draw(st.sampled_from(["/*", "//", "/* "])) + draw(st.sampled_from(EXOTIC)) * draw(st.integers(1, 3)) + draw(st.sampled_from(["*/", "", "\n", "*/\n"]))
+    return text[:2048], mode
 
 
 noise = st.one_of(
@@ -348,9 +383,17 @@ def run_shard(ctx: Ctx) -> None:
         if bad:
             known_or_bucket(bad, t, "text")
 
+    def body_exotic(c: Any) -> None:
+        t, mode = c
+        kind, bad = run_text(t)
+        account(kind, "exotic_separator", t, True, {"kind": "exotic-separator", "mode": mode, "text": t})
+        if bad:
+            known_or_bucket(bad, t, "text")
+
+    hyp_run(ctx, exotic(), body_exotic, ctx.n(2000, 50000), tag="exotic")
     hyp_run(ctx, S.full_schema(small_cfg()), body_prefix, ctx.n(64, 1600), tag="prefix")
-    hyp_run(ctx, mutated(), body_mut, ctx.n(5000, 80000), tag="mut")
-    hyp_run(ctx, tweaked(), body_tweak, ctx.n(5000, 80000), tag="tweak")
+    hyp_run(ctx, mutated(), body_mut, ctx.n(4000, 80000), tag="mut")
+    hyp_run(ctx, tweaked(), body_tweak, ctx.n(4000, 80000), tag="tweak")
     hyp_run(ctx, noise, body_noise, ctx.n(1500, 30000), tag="noise")
 
     if ctx.tier == "thorough" and ctx.shard < 4:
